@@ -236,11 +236,39 @@ def check_design(ctx: Ctx, d: dict, r: dict):
                               dict(case, kind='pam_mut_sgrna_id', junction_codon=split, listed_outside=bool(outside), row={'mut_position': s, 'ref': row['ref'], 'mutator': row['mutator']}))
 
 
+def junction_edit(rng, d: dict) -> bool:
+    """A PAM edit of a listed guide on a base of a codon that an exon junction splits (the other bases of the codon lie in the neighbouring exon:
+    its annotation is read across the intron, not from the three contiguous bases)."""
+    exons = gen.exons_of(d)
+    if len(exons) < 2:
+        return False
+    U = d['ref'].upper()
+    cands = []
+    for t in d['targetons']:
+        for ex in exons:
+            for p in {ex[0], ex[0] + 1, ex[1] - 1, ex[1]}:
+                tc = gen.true_codon_positions(d, p)
+                if tc and None not in tc and max(tc) - min(tc) > 2 and t['ref_start'] <= p <= t['ref_end'] and 2 <= p <= len(U) - 1:
+                    cands.append((t, p, tc))
+    if not cands:
+        return False
+    t, p, tc = rng.choice(cands)
+    pam = [e for e in d.get('pam') or [] if e['pos'] not in tc]
+    sg = (t.get('sgrna') or ['sg1'])[0]
+    pam.append({'pos': p, 'ref': U[p - 1], 'alt': rng.choice([c for c in 'ACGT' if c != U[p - 1]]), 'sgrna': sg})
+    d['pam'] = pam
+    t['sgrna'] = sorted(set(t.get('sgrna') or []) | {sg})
+    return True
+
+
 def files(ctx: Ctx):
     n = ctx.n(120, 1500)
     focus = {'p_bg': 0.0, 'p_pam': 1.0, 'n_pam': [1, 2, 3, 4, 5], 'p_custom': 0.4, 'allow_junction_pam': True, 'p_pam_outside': 0.2, 'p_gtf': 0.9, 'exon_lens': [4, 5, 7, 8, 10, 11, 13, 17, 21, 30],
              'custom_kinds': ['snv', 'del', 'del', 'ins', 'mnv'], 'p_pam_edge': 0.1}
     designs = [gen.gen_sge(ctx.rng, focus) for _ in range(n)]
+    for i, d in enumerate(designs):
+        if i % 4 == 1 and junction_edit(ctx.rng, d):
+            ctx.count('designs_with_an_edit_in_a_junction_codon')
     MODEL.clear()
     for d, r in pool_map_designs(designs):
         check_design(ctx, d, r)
